@@ -18,7 +18,7 @@ import (
 //verif:include ../dnsdata/rdb/zz_verif_model.go
 //verif:include zz_verif_world.go
 //verif:harness H03_rdb property=C03 native=no quick=n=1,f0=4,cf=46,trunc=0,vsym=2,rel=0;n=1,f0=4,cf=4,trunc=1,vsym=2,rel=0;n=1,f0=4,cf=4,trunc=0,vsym=2,rel=0;n=1,f0=6,cf=6,trunc=1,vsym=2,rel=0;n=1,f0=6,cf=4,trunc=1,vsym=2,rel=0;n=1,f0=4,cf=6,trunc=1,vsym=2,rel=0;n=2,f0=4,f1=4,cf=4,trunc=1,vsym=2,rel=2 thorough=n=2,f0=4,f1=4,cf=4,trunc=1,vsym=2,rel=1;n=1,f0=6,cf=6,trunc=0,vsym=16,rel=0;n=2,f0=4,f1=4,cf=4,trunc=0,vsym=2,rel=0;n=2,f0=4,f1=6,cf=4,trunc=1,vsym=2,rel=0;n=2,f0=4,f1=6,cf=6,trunc=1,vsym=2,rel=0;n=2,f0=6,f1=6,cf=6,trunc=1,vsym=2,rel=1
-//verif:harness H03_cdb property=C03 native=no quick=n=1,f0=6,cf=46,trunc=1,sep=1,vsym=2,rel=0;n=1,f0=4,cf=4,trunc=1,sep=0,vsym=2,rel=0;n=1,f0=4,cf=4,trunc=0,sep=0,vsym=2,rel=0;n=1,f0=6,cf=4,trunc=1,sep=0,vsym=2,rel=0;n=1,f0=6,cf=4,trunc=1,sep=1,vsym=2,rel=0 thorough=n=1,f0=4,cf=46,trunc=0,sep=0,vsym=2,rel=0;n=1,f0=6,cf=6,trunc=1,sep=0,vsym=2,rel=0;n=2,f0=4,f1=4,cf=4,trunc=1,sep=0,vsym=2,rel=1;n=2,f0=4,f1=6,cf=4,trunc=0,sep=1,vsym=2,rel=0;n=2,f0=4,f1=6,cf=4,trunc=1,sep=0,vsym=2,rel=0
+//verif:harness H03_cdb property=C03 native=no quick=n=2,f0=4,f1=6,cf=6,trunc=1,sep=1,vsym=2,rel=3;n=1,f0=6,cf=46,trunc=1,sep=1,vsym=2,rel=0;n=1,f0=4,cf=4,trunc=1,sep=0,vsym=2,rel=0;n=1,f0=4,cf=4,trunc=0,sep=0,vsym=2,rel=0;n=1,f0=6,cf=4,trunc=1,sep=0,vsym=2,rel=0;n=1,f0=6,cf=4,trunc=1,sep=1,vsym=2,rel=0 thorough=n=1,f0=4,cf=46,trunc=0,sep=0,vsym=2,rel=0;n=1,f0=6,cf=6,trunc=1,sep=0,vsym=2,rel=0;n=2,f0=4,f1=4,cf=4,trunc=1,sep=0,vsym=2,rel=1;n=2,f0=4,f1=6,cf=4,trunc=0,sep=1,vsym=2,rel=0;n=2,f0=4,f1=6,cf=4,trunc=1,sep=0,vsym=2,rel=0
 
 var verifV4Prefix = [12]byte{0, 0, 0, 0, 0, 0, 0, 0, 0, 0, 0xff, 0xff}
 
@@ -162,6 +162,13 @@ func verifSubnets(n int) []verifSub {
 		}
 	}
 	// relation between the first two subnets (bound: rel=0 free, 1 nested, 2 same network address)
+	if n >= 2 && nd.Param("rel") == 3 {
+		// subnets of the two families with the same prefix length on the 128-bit scale
+		// (an IPv4 /n and an IPv6 /(96+n)): the per-family prefix-length sets must both hold it
+		// bound: that common length is 120 (an IPv4 /24 and an IPv6 /120)
+		nd.Assume(subs[0].ones == 120)
+		nd.Assume(subs[1].ones == 120)
+	}
 	if n >= 2 && subs[0].v4 == subs[1].v4 {
 		switch nd.Param("rel") {
 		case 1:
